@@ -18,7 +18,10 @@ inline std::vector<PlanItem> plan_modelspace(const Args& a, const char* profile)
     // profiles: "g" = cheap G-level predicates, "x" = expensive (2PGF-level), "s" = structural (no thermal part)
     std::vector<PlanItem> P; bool T = a.thorough(); std::string p = profile;
     auto add = [&](const char* s, int d, bool rich = true, bool raw = true, bool off = false) { PlanItem it; it.shape = s; it.depth = d; it.opts.rich = rich; it.opts.with_raw = raw; it.opts.with_offsets = off; P.push_back(it); };
-    if (p == "g" || p == "s") {          // predicates that are cheap per state
+    if (T && (p == "s" || p == "G")) {   // thorough tier of the predicates that are cheapest per state (spectrum, field operators, G): one level deeper everywhere
+        add("S1", 5); add("S2", 5); add("S3", 4); add("S4", 4); add("S5", 4);
+        add("S6", 3); add("S7", 3); add("S11", 3); add("S4r", 3); add("S8", 2); add("S9", p == "s" ? 2 : 1); add("S10", 2);
+    } else if (p == "g" || p == "s" || p == "G") {          // predicates that are cheap per state
         add("S1", T ? 4 : 3); add("S2", T ? 4 : 3); add("S3", 3); add("S4", 3); add("S5", 3);
         add("S6", 2, T); add("S7", 2, T); add("S11", 2);
         if (T) { add("S4r", 2); add("S8", 1); add("S9", 1); add("S10", 1); }
